@@ -4,6 +4,44 @@ _SUFFIX = (' Decides the structural necessary condition(s) named, on every path 
            'current source; does not decide the run-time behaviour itself.')
 
 CLAIMED = {
+    'C03': {
+        'text': 'Proof by exhaustion over finite dispatch tables (R03.1-R03.6): a three-valued partial evaluator walks the '
+                'chunk-type switch of _merge_lists for all 36 (local,remote) chunk types and the op table of _merge_dicts for '
+                'all 18 op pairings (domains derived from chunk_typename / the builder OPS tuples): no aborting arm reachable, '
+                'no use-before-assignment; emitted actions all handled by resolve_action; every (path, strategy) pair the '
+                'strategy table can hold lands only on non-raising arms (fail only on schema-constant/string paths); '
+                'parent_deleted stays internal; renderer selection total with 2-tuple returns.' + _SUFFIX,
+        'note': 'Trusted: make_merge_chunks contract (<=1 addrange then <=1 patch/removerange per side), nbformat schema types. '
+                'Value-dependent sanity asserts and exceptions inside patch() are not decided (no assert inventory is shipped).',
+        'technique': 'static analysis: three-valued partial evaluation of if/elif dispatch chains over derived finite domains',
+    },
+    'C05': {
+        'text': 'R05.1 (evaluator): for every chunk type / op pair with an untouched, one-sided or same-op change the FIRST '
+                'reachable arm is the no-op / onesided / agreement arm and it is strategy-free; R05.2: strategy resolvers '
+                'are entry-guarded by has_conflicted() and per-decision stores are under d.conflict (CFG guards); R05.3: '
+                'local/remote mirror closure of the merger dispatch chains under a role-swapping AST transformation.' + _SUFFIX,
+        'note': 'The algebraic laws themselves are behavioural. R05.3 has a stated residual false-alarm surface (asymmetric but '
+                'equivalent rewrite of one arm of a mirror pair).',
+        'technique': 'static analysis: partial evaluation of arm precedence + guard dominance + AST mirror-symmetry closure',
+    },
+    'C09': {
+        'text': 'Vocabulary/shape rules R09.1-R09.4: emitted action set (def-use over add_decision / .action stores, incl. the '
+                'image of strategy.replace) is a subset of the schema enum; decision fields minus schema properties equals the '
+                'set validated() deletes, and every public producer returns validated()\'s result by plain name copies; the one '
+                'sort, no re-ordering afterwards, apply iterates in order; op_* constructor fields equal the diff schema.' + _SUFFIX,
+        'note': 'Apply-equals-merged / all-local / all-remote reconstruction and the correctness of the sort key are behavioural '
+                'and not decided.',
+        'technique': 'static analysis: writer/reader vocabulary set comparison between code, JSON schema and constructors',
+    },
+    'C15': {
+        'text': 'Cross-language table agreement R15.1-R15.4: Python-emittable actions vs TS whitelist/union/resolveAction arms; '
+                'op vocabulary vs TS DiffOp union and patcher/validator arms; separator set of str.splitlines vs the terminator '
+                'alternation parsed from the TS splitLines regex literal; flattening shape on both sides. TS facts come from a '
+                'purpose-built lexical scanner (listed with file:line in evidence).' + _SUFFIX,
+        'note': 'TypeScript is never executed (no JS toolchain). Two genuine defects are recorded as known findings (take_max not '
+                'accepted by TS; 8 line separators only Python splits at).',
+        'technique': 'static analysis: cross-language vocabulary comparison via a TypeScript lexical scanner',
+    },
     'C08': {
         'text': 'Command-path rules R08.1-R08.5: the value returned after merge_notebooks derives (def-use) from the '
                 'conflicted-decision filter in an accepted zero/non-zero form, early zero only under the agreed-deletion '
